@@ -174,7 +174,17 @@ Section Fault.
   Definition flt (w : world) : Prop := cf_fault (cfg w) = Some (h, k, e).
   Definition cnt (w : world) : nat := nat_assoc h (occ w).
   Definition nofire (w w' : world) : Prop := flt w -> k < cnt w' -> k < cnt w.
-  Definition handled (w : world) : Prop := flt w -> k < cnt w -> st w = Some (SExcepted e).
+  Definition cl_same (w w' : world) : Prop := closed w' = closed w /\ hooks_alive w' = hooks_alive w.
+  Definition cl_set (w' : world) : Prop := closed w' = true /\ hooks_alive w' = false.
+  Lemma cl_same_trans a b c : cl_same a b -> cl_same b c -> cl_same a c.
+  Proof. intros [X1 Y1] [X2 Y2]. split; congruence. Qed.
+  (* alive unless closed *)
+  Definition AL (w : world) : Prop := hooks_alive w = false -> closed w = true.
+  Lemma AL_step w w' : AL w -> (cl_same w w' \/ cl_set w') -> AL w'.
+  Proof. intros H [[X Y]|[X Y]] Ha; [rewrite X; apply H; rewrite <- Y; exact Ha | exact X]. Qed.
+
+  Definition handled (w : world) : Prop :=
+    AL w /\ (flt w -> k < cnt w -> st w = Some (SExcepted e) /\ pfut w = PfExn e /\ closed w = true).
 
   Lemma spent_cnt w : flt w -> (spent w <-> k < cnt w).
   Proof. unfold flt, spent, cnt. intros ->. reflexivity. Qed.
@@ -194,14 +204,17 @@ Section Fault.
   (* ---------------------------------------------------------------- EX: control level, inside a transition *)
   Definition EXr (w w' : world) : Prop :=
     transitioning w' = transitioning w /\ cfg w' = cfg w
-    /\ (transitioning w = true -> cnt w' = cnt w /\ (is_terminated w = true -> st w' = st w)).
+    /\ (transitioning w = true ->
+        cnt w' = cnt w /\ closed w' = closed w /\ hooks_alive w' = hooks_alive w /\ pfut w' = pfut w
+        /\ (is_terminated w = true -> st w' = st w)).
 
   Lemma EXr_refl w : Tr1 w -> EXr w w.
   Proof. intros _. repeat split; reflexivity. Qed.
   Lemma EXr_trans a b c : EXr a b -> EXr b c -> EXr a c.
   Proof.
     intros (T1 & C1 & H1) (T2 & C2 & H2). split; [congruence|]. split; [congruence|]. intro Ht.
-    destruct (H1 Ht) as [N1 S1]. destruct (H2 (eq_trans T1 Ht)) as [N2 S2]. split; [congruence|].
+    destruct (H1 Ht) as (N1 & L1 & A1 & P1 & S1). destruct (H2 (eq_trans T1 Ht)) as (N2 & L2 & A2 & P2 & S2).
+    split; [congruence|]. split; [congruence|]. split; [congruence|]. split; [congruence|].
     intro Hterm. rewrite S2; [apply S1; exact Hterm|]. unfold is_terminated in *. rewrite (S1 Hterm). exact Hterm.
   Qed.
   Lemma EXr_pre a b : Tr1 a -> EXr a b -> Tr1 b.
@@ -243,13 +256,14 @@ Section Fault.
 
   (* strict frames: configuration, flags and hook counters untouched, a terminal state left alone *)
   Definition neq (w w' : world) : Prop :=
-    transitioning w' = transitioning w /\ cfg w' = cfg w /\ occ w' = occ w /\ (is_terminated w = true -> st w' = st w).
+    transitioning w' = transitioning w /\ cfg w' = cfg w /\ occ w' = occ w /\ closed w' = closed w /\ hooks_alive w' = hooks_alive w
+    /\ pfut w' = pfut w /\ (is_terminated w = true -> st w' = st w).
   Definition FrN {A} (m : LM A) : Prop :=
     forall w (Q : result A -> world -> Prop), (forall r w', neq w w' -> Q r w') -> wp m Q w.
   Lemma FrN_EK {A} (m : LM A) : FrN m -> EK m.
   Proof.
-    intros H w Q _ HQ. apply H. intros r w' (T & C & O & S). apply HQ. split; [exact T|]. split; [exact C|]. intros _.
-    split; [unfold cnt; rewrite O; reflexivity | exact S].
+    intros H w Q _ HQ. apply H. intros r w' (T & C & O & L & Al & P & S). apply HQ. split; [exact T|]. split; [exact C|]. intros _.
+    split; [unfold cnt; rewrite O; reflexivity | repeat split; assumption].
   Qed.
   Ltac neq_done :=
     repeat split;
@@ -276,7 +290,7 @@ Section Fault.
   Lemma hook_other_EK name : String.eqb h name = false -> EK (hook name).
   Proof.
     intros Hne w Q _ HQ. unfold hook, emit. repeat (wp_prim || wp_case); apply HQ; (split; [reflexivity|]; split; [reflexivity|]; intros _;
-      split; [unfold cnt; cbn; apply nat_assoc_bump_other; exact Hne | reflexivity]).
+      split; [unfold cnt; cbn; apply nat_assoc_bump_other; exact Hne | repeat split; reflexivity]).
   Qed.
 
   Lemma FrN_ret {A} (a : A) : FrN (ret a : LM A). Proof. frn_auto. Qed.
@@ -289,7 +303,7 @@ Section Fault.
     Proof.
       intro w. unfold fire. estep2. estep2.
       - intros Q _ HQ. wp_prim. apply HQ. split; [reflexivity|]. split; [reflexivity|]. intros _.
-        split; [unfold cnt; cbn; apply nat_assoc_bump_other; apply sm_not_listener | reflexivity].
+        split; [unfold cnt; cbn; apply nat_assoc_bump_other; apply sm_not_listener | repeat split; reflexivity].
       - estep2. estep2; [apply FrN_EK; apply emit_FrN|]. estep2. apply EK_mapM. intros ls w2.
         estep2; [|apply Eat_ret]. estep2; [apply Eat_attempt; apply Hrec|]. estep2. apply FrN_EK. apply emit_FrN.
     Qed.
@@ -520,12 +534,13 @@ Section Fault.
 
     (* ---------------------------------------------------------------- a terminal state is left alone by what follows its entry *)
     Definition SSr (w w' : world) : Prop :=
-      transitioning w' = transitioning w /\ (transitioning w = true -> is_terminated w = true -> st w' = st w).
+      transitioning w' = transitioning w
+      /\ (transitioning w = true -> pfut w' = pfut w /\ (is_terminated w = true -> st w' = st w)).
     Lemma SSr_refl w : Tr1 w -> SSr w w. Proof. intros _. split; auto. Qed.
     Lemma SSr_trans a b c : SSr a b -> SSr b c -> SSr a c.
     Proof.
-      intros [T1 S1] [T2 S2]. split; [congruence|]. intros Ht Hm. rewrite S2; [apply S1; assumption | congruence|].
-      unfold is_terminated in *. rewrite (S1 Ht Hm). exact Hm.
+      intros [T1 S1] [T2 S2]. split; [congruence|]. intros Ht. destruct (S1 Ht) as [P1 M1]. destruct (S2 (eq_trans T1 Ht)) as [P2 M2].
+      split; [congruence|]. intro Hm. rewrite M2; [apply M1; exact Hm|]. unfold is_terminated in *. rewrite (M1 Hm). exact Hm.
     Qed.
     Lemma SSr_pre a b : Tr1 a -> SSr a b -> Tr1 b. Proof. intros; exact I. Qed.
     Definition SK {A} (m : LM A) : Prop := forall w, Hat Tr1 SSr m w.
@@ -540,8 +555,8 @@ Section Fault.
       | |- Hat Tr1 SSr (attempt _) _ => apply Hat_attempt
       | |- Hat Tr1 SSr (finally _ _) _ => eapply Hat_finally; [exact SSr_trans | exact SSr_pre | | intro ]
       | |- Hat Tr1 SSr (when _ _) _ => apply Hat_when; [exact SSr_refl | intro ]
-      | |- Hat Tr1 SSr (modify _) _ => apply Hat_modify; split; [reflexivity | intros _ _; reflexivity]
-      | |- Hat Tr1 SSr (put _) _ => apply Hat_put; split; [reflexivity | intros _ _; reflexivity]
+      | |- Hat Tr1 SSr (modify _) _ => apply Hat_modify; split; [reflexivity | intros _; split; reflexivity]
+      | |- Hat Tr1 SSr (put _) _ => apply Hat_put; split; [reflexivity | intros _; split; reflexivity]
       | |- Hat Tr1 SSr (mapM_ _ _) _ => eapply Hat_mapM; [exact SSr_refl | exact SSr_trans | exact SSr_pre | intros ? ? ]
       | |- Hat _ _ (match ?x with _ => _ end) _ => destruct x eqn:?
       | |- Hat _ _ (if ?x then _ else _) _ => destruct x eqn:?
@@ -551,7 +566,7 @@ Section Fault.
 
     Lemma hook_SK name : SK (hook name). Proof. intro w. unfold hook, emit. sgo. Qed.
     Lemma rec_SK c : SK (rec_ctl c).
-    Proof. intros w Q _ HQ. apply Hrec; [exact I|]. intros r w' (T1 & _ & X). apply HQ. split; [exact T1|]. intros Ht Hm. apply (X Ht). exact Hm. Qed.
+    Proof. intros w Q _ HQ. apply Hrec; [exact I|]. intros r w' (T1 & _ & X). apply HQ. split; [exact T1|]. intros Ht. destruct (X Ht) as (_ & _ & _ & P & S). split; assumption. Qed.
     Lemma fire_SK name : SK (fire rec_ctl name).
     Proof. intro w. unfold fire, emit. sgo. apply rec_SK. Qed.
     Lemma on_entered_SK w0 : SK (on_entered rec_ctl w0).
@@ -561,89 +576,282 @@ Section Fault.
     Lemma on_terminated_SK : SK on_terminated.
     Proof. intro w. unfold on_terminated, schedule. sgo; first [apply hook_SK | apply close_SK]. Qed.
 
-    Lemma on_entering_excepted_none e1 w : wp (on_entering (SExcepted e1)) (fun r _ => forall s', r <> Ok (Some s')) w.
-    Proof. unfold on_entering, hook, emit, pfut_set, schedule. repeat (wp_prim || wp_case); intros s' X; discriminate X. Qed.
-
-    (* the second transition leaves exactly EXCEPTED e1 *)
-    Lemma body_excepted_st e1 w :
-      transitioning w = false ->
-      wp (transition_body rec_ctl (SExcepted e1)) (fun r w' => is_ok r -> st w' = Some (SExcepted e1)) w.
+    (* ---------------------------------------------------------------- closed / hooks released: unchanged, or set together *)
+    Definition NCr (w w' : world) : Prop :=
+      transitioning w' = transitioning w /\ (transitioning w = true -> cl_same w w' \/ cl_set w').
+    Lemma NCr_refl w : Tr1 w -> NCr w w. Proof. intros _. split; [reflexivity | intros _; left; split; reflexivity]. Qed.
+    Lemma NCr_trans a b c : NCr a b -> NCr b c -> NCr a c.
     Proof.
-      intros T. unfold transition_body. do 4 wp_prim.
+      intros [T1 S1] [T2 S2]. split; [congruence|]. intros Ht.
+      destruct (S2 (eq_trans T1 Ht)) as [[X Y]|X]; [|right; exact X].
+      destruct (S1 Ht) as [[X1 Y1]|[X1 Y1]]; [left; split; congruence | right; split; congruence].
+    Qed.
+    Lemma NCr_pre a b : Tr1 a -> NCr a b -> Tr1 b. Proof. intros; exact I. Qed.
+    Definition NCK {A} (m : LM A) : Prop := forall w, Hat Tr1 NCr m w.
+
+    Ltac ncstep :=
+      lazymatch goal with
+      | |- NCK _ => intro
+      | |- Hat Tr1 NCr (bind get _) _ => apply Hat_get; cbv beta
+      | |- Hat Tr1 NCr (bind _ _) _ => eapply Hat_bind; [exact NCr_trans | exact NCr_pre | | intros ? ? ]
+      | |- Hat Tr1 NCr (ret _) _ => apply Hat_ret; exact NCr_refl
+      | |- Hat Tr1 NCr (raise _) _ => apply Hat_raise; exact NCr_refl
+      | |- Hat Tr1 NCr (attempt _) _ => apply Hat_attempt
+      | |- Hat Tr1 NCr (finally _ _) _ => eapply Hat_finally; [exact NCr_trans | exact NCr_pre | | intro ]
+      | |- Hat Tr1 NCr (when _ _) _ => apply Hat_when; [exact NCr_refl | intro ]
+      | |- Hat Tr1 NCr (modify _) _ => apply Hat_modify; split; [reflexivity | intros _; first [left; split; reflexivity | right; split; reflexivity]]
+      | |- Hat Tr1 NCr (put _) _ => apply Hat_put; split; [reflexivity | intros _; first [left; split; reflexivity | right; split; reflexivity]]
+      | |- Hat Tr1 NCr (mapM_ _ _) _ => eapply Hat_mapM; [exact NCr_refl | exact NCr_trans | exact NCr_pre | intros ? ? ]
+      | |- Hat _ _ (match ?x with _ => _ end) _ => destruct x eqn:?
+      | |- Hat _ _ (if ?x then _ else _) _ => destruct x eqn:?
+      | |- Hat _ _ (let _ := _ in _) _ => cbv zeta
+      end.
+    Ltac ncgo := repeat ncstep.
+
+    Lemma hook_NCK name : NCK (hook name). Proof. intro w. unfold hook, emit. ncgo. Qed.
+    Lemma rec_NCK c : NCK (rec_ctl c).
+    Proof.
+      intros w Q _ HQ. apply Hrec; [exact I|]. intros r w' (T1 & _ & X). apply HQ. split; [exact T1|]. intros Ht.
+      destruct (X Ht) as (_ & L & A & _). left. split; assumption.
+    Qed.
+    Lemma fire_NCK name : NCK (fire rec_ctl name). Proof. intro w. unfold fire, emit. ncgo. apply rec_NCK. Qed.
+    Lemma pfut_set_NCK f : NCK (pfut_set f). Proof. intro w. unfold pfut_set, schedule. ncgo. Qed.
+    Lemma on_entering_NCK ns : NCK (on_entering ns).
+    Proof. intro w. unfold on_entering. ncgo; first [apply hook_NCK | apply pfut_set_NCK]. Qed.
+    Lemma on_entered_NCK w0 : NCK (on_entered rec_ctl w0).
+    Proof. intro w. unfold on_entered. ncgo; first [apply hook_NCK | apply fire_NCK]. Qed.
+    Lemma exit_current_NCK ns : NCK (exit_current ns).
+    Proof. intro w. unfold exit_current, schedule. ncgo; apply hook_NCK. Qed.
+    Lemma enter_next_NCK ns : NCK (enter_next rec_ctl ns).
+    Proof. intro w. unfold enter_next, emit. ncgo; first [apply on_entering_NCK | apply on_entered_NCK]. Qed.
+    Lemma on_close_NCK : NCK on_close. Proof. intro w. unfold on_close, emit. ncgo; apply hook_NCK. Qed.
+    Lemma close_NCK : NCK close. Proof. intro w. unfold close. ncgo. apply on_close_NCK. Qed.
+    Lemma on_terminated_NCK : NCK on_terminated.
+    Proof. intro w. unfold on_terminated, schedule. ncgo; first [apply hook_NCK | apply close_NCK]. Qed.
+
+    (* the operations that never close: closed / hooks_alive untouched (inside a transition) *)
+    Definition NSr (w w' : world) : Prop :=
+      transitioning w' = transitioning w /\ (transitioning w = true -> cl_same w w').
+    Lemma NSr_refl w : Tr1 w -> NSr w w. Proof. intros _. split; [reflexivity | intros _; split; reflexivity]. Qed.
+    Lemma NSr_trans a b c : NSr a b -> NSr b c -> NSr a c.
+    Proof.
+      intros [T1 S1] [T2 S2]. split; [congruence|]. intros Ht. destruct (S1 Ht) as [X1 Y1]. destruct (S2 (eq_trans T1 Ht)) as [X2 Y2].
+      split; congruence.
+    Qed.
+    Lemma NSr_pre a b : Tr1 a -> NSr a b -> Tr1 b. Proof. intros; exact I. Qed.
+    Definition NSK {A} (m : LM A) : Prop := forall w, Hat Tr1 NSr m w.
+    Ltac nsstep :=
+      lazymatch goal with
+      | |- NSK _ => intro
+      | |- Hat Tr1 NSr (bind get _) _ => apply Hat_get; cbv beta
+      | |- Hat Tr1 NSr (bind _ _) _ => eapply Hat_bind; [exact NSr_trans | exact NSr_pre | | intros ? ? ]
+      | |- Hat Tr1 NSr (ret _) _ => apply Hat_ret; exact NSr_refl
+      | |- Hat Tr1 NSr (raise _) _ => apply Hat_raise; exact NSr_refl
+      | |- Hat Tr1 NSr (attempt _) _ => apply Hat_attempt
+      | |- Hat Tr1 NSr (when _ _) _ => apply Hat_when; [exact NSr_refl | intro ]
+      | |- Hat Tr1 NSr (modify _) _ => apply Hat_modify; split; [reflexivity | intros _; split; reflexivity]
+      | |- Hat Tr1 NSr (put _) _ => apply Hat_put; split; [reflexivity | intros _; split; reflexivity]
+      | |- Hat Tr1 NSr (mapM_ _ _) _ => eapply Hat_mapM; [exact NSr_refl | exact NSr_trans | exact NSr_pre | intros ? ? ]
+      | |- Hat _ _ (match ?x with _ => _ end) _ => destruct x eqn:?
+      | |- Hat _ _ (if ?x then _ else _) _ => destruct x eqn:?
+      | |- Hat _ _ (let _ := _ in _) _ => cbv zeta
+      end.
+    Ltac nsgo := repeat nsstep.
+    Lemma hook_NSK name : NSK (hook name). Proof. intro w. unfold hook, emit. nsgo. Qed.
+    Lemma rec_NSK c : NSK (rec_ctl c).
+    Proof.
+      intros w Q _ HQ. apply Hrec; [exact I|]. intros r w' (T1 & _ & X). apply HQ. split; [exact T1|]. intros Ht.
+      destruct (X Ht) as (_ & L & A & _). split; assumption.
+    Qed.
+    Lemma fire_NSK name : NSK (fire rec_ctl name). Proof. intro w. unfold fire, emit. nsgo. apply rec_NSK. Qed.
+    Lemma pfut_set_NSK f : NSK (pfut_set f). Proof. intro w. unfold pfut_set, schedule. nsgo. Qed.
+    Lemma on_entering_NSK ns : NSK (on_entering ns).
+    Proof. intro w. unfold on_entering. nsgo; first [apply hook_NSK | apply pfut_set_NSK]. Qed.
+    Lemma on_entered_NSK w0 : NSK (on_entered rec_ctl w0).
+    Proof. intro w. unfold on_entered. nsgo; first [apply hook_NSK | apply fire_NSK]. Qed.
+    Lemma exit_current_NSK ns : NSK (exit_current ns).
+    Proof. intro w. unfold exit_current, schedule. nsgo; apply hook_NSK. Qed.
+    Lemma enter_next_NSK ns : NSK (enter_next rec_ctl ns).
+    Proof. intro w. unfold enter_next, emit. nsgo; first [apply on_entering_NSK | apply on_entered_NSK]. Qed.
+
+    (* an operation that never touches closed / hooks_alive (inside a transition) *)
+    Definition NC0 {A} (m : LM A) : Prop :=
+      forall w (Q : result A -> world -> Prop), transitioning w = true ->
+        (forall r w', transitioning w' = true -> cl_same w w' -> Q r w') -> wp m Q w.
+    Lemma hook_NC0 name : NC0 (hook name).
+    Proof. intros w Q T HQ. unfold hook, emit. repeat (wp_prim || wp_case); apply HQ; first [exact T | split; reflexivity]. Qed.
+
+    (* the closing operations fail only before they close *)
+    Lemma on_close_err w :
+      transitioning w = true -> wp on_close (fun r w' => is_err r -> cl_same w w') w.
+    Proof.
+      intros T. unfold on_close. wp_prim. apply hook_NC0; [exact T|]. intros r w1 T1 C1. destruct r; cbv beta iota; [|intros _; exact C1].
+      wp_prim.
+      assert (Hb : forall wz, wp (bind get (fun w => bind (mapM_ (fun c => emit (EvCleanup c)) (cleanups w)) (fun _ => modify (fun w => w <| cleanups := [] |>))))
+                            (fun r _ => is_ok r) wz).
+      { intro wz. do 3 wp_prim. eapply wp_use; [apply (mapM_ok (fun c => emit (EvCleanup c))); intros c wy; unfold emit; wp_prim; exact I|].
+        intros r w2 Hr. destruct r; [|destruct Hr]. cbv beta iota. wp_prim. exact I. }
+      eapply wp_use; [apply Hb|]. intros r2 w2 Hr. destruct r2; [|destruct Hr]. wp_prim. intros [].
+    Qed.
+
+    Lemma close_err w : transitioning w = true -> wp close (fun r w' => is_err r -> cl_same w w') w.
+    Proof.
+      intros T. unfold close. do 2 wp_prim. destruct (closed w); [wp_prim; intros [] | apply on_close_err; exact T].
+    Qed.
+
+    Lemma on_terminated_err w : transitioning w = true -> wp on_terminated (fun r w' => is_err r -> cl_same w w') w.
+    Proof.
+      intros T. unfold on_terminated. wp_prim. apply hook_NC0; [exact T|]. intros r w1 T1 C1. destruct r; cbv beta iota; [|intros _; exact C1].
+      do 3 wp_prim.
+      assert (Hm : wp (match paused w1, t0 w1 with Some fid, PcAwaitPaused f => when (Nat.eqb f fid) (schedule (RWakeT0 WkNone)) | _, _ => ret tt end)
+                      (fun r w2 => is_ok r /\ transitioning w2 = true /\ cl_same w1 w2) w1).
+      { unfold schedule. repeat (wp_prim || wp_case); (split; [exact I | split; [exact T1 | split; reflexivity]]). }
+      eapply wp_use; [exact Hm|]. intros r2 w2 (Hr & T2 & C2). destruct r2; [|destruct Hr]. cbv beta iota.
+      eapply wp_use; [apply close_err; exact T2|]. intros r3 w3 H3 He. eapply cl_same_trans; [exact C1|]. eapply cl_same_trans; [exact C2 | exact (H3 He)].
+    Qed.
+
+    Lemma NCK_same {A} (m : LM A) w (Q : result A -> world -> Prop) :
+      NCK m -> transitioning w = true -> closed w = false -> hooks_alive w = true ->
+      (forall r w', transitioning w' = true -> (cl_same w w' \/ cl_set w') -> Q r w') -> wp m Q w.
+    Proof. intros H T _ _ HQ. apply H; [exact I|]. intros r w' [T1 X]. apply HQ; [congruence | apply X; exact T]. Qed.
+
+    Lemma on_entering_excepted w e1 :
+      wp (on_entering (SExcepted e1)) (fun r w' => (forall s', r <> Ok (Some s')) /\ (is_ok r -> pfut w' = PfExn e1)) w.
+    Proof.
+      unfold on_entering, hook, emit, pfut_set, schedule. repeat (wp_prim || wp_case); (split; [intros s' X; discriminate X | intros X; try reflexivity; destruct X]).
+    Qed.
+
+    Lemma on_close_ok_closed w : wp on_close (fun r w' => is_ok r -> closed w' = true) w.
+    Proof.
+      unfold on_close. wp_prim. apply wp_any. intros r1 w1. destruct r1; cbv beta iota; [|intros []].
+      wp_prim. apply wp_any. intros r2 w2. wp_prim. destruct r2; intros _; reflexivity.
+    Qed.
+
+    Lemma on_terminated_ok_closed w : wp on_terminated (fun r w' => is_ok r -> closed w' = true) w.
+    Proof.
+      unfold on_terminated. wp_prim. apply wp_any. intros r1 w1. destruct r1; cbv beta iota; [|intros []].
+      do 3 wp_prim. apply wp_any. intros r2 w2. destruct r2; cbv beta iota; [|intros []].
+      unfold close. do 2 wp_prim. destruct (closed w2) eqn:Ec; [wp_prim; intros _; exact Ec | apply on_close_ok_closed].
+    Qed.
+
+    (* the second transition (exit phase skipped), started on a process that is not closed: it leaves exactly EXCEPTED e1, the
+       future raising e1, and the process closed *)
+    Lemma body_excepted_full e1 w :
+      transitioning w = false -> transition_failing w = true -> hooks_alive w = true ->
+      wp (transition_body rec_ctl (SExcepted e1))
+         (fun r w' => is_ok r -> st w' = Some (SExcepted e1) /\ pfut w' = PfExn e1 /\ closed w' = true) w.
+    Proof.
+      intros T Hf Ha. unfold transition_body. do 4 wp_prim. cbn [transition_failing set]. rewrite Hf. cbn [negb when]. do 2 wp_prim.
       set (w0 := w <| transitioning := true |>).
-      assert (Hex : NPat (when (negb (transition_failing w0)) (exit_current (SExcepted e1))) w0).
-      { apply NP_when. intro. apply exit_current_NK. }
-      wp_prim. apply Hex; [reflexivity|]. intros r1 w1 (T1 & _). destruct r1 as [u|x]; cbv beta iota; [|intros []].
-      wp_prim. unfold enter_next. do 3 wp_prim.
-      (* after on_entering *)
-      assert (Hrest : forall w1', transitioning w1' = true ->
-                wp (bind get (fun wa => bind (put (wa <| st := Some (SExcepted e1) |> <| wintr := None |> <| wrecalled := [] |>))
-                     (fun _ => bind (emit (EvEntered (cur_label w1) (label_of (SExcepted e1))))
-                     (fun _ => bind get (fun w2 => bind (when (hooks_alive w2) (on_entered rec_ctl w1)) (fun _ => ret None))))))
-                   (fun r w' => match r with
-                                | Ok r0 => wp (bind (match r0 with
-                                                     | Some s' => bind (exit_current s') (fun _ => bind (enter_next rec_ctl s') (fun _ => ret tt))
-                                                     | None => ret tt end)
-                                                    (fun _ => bind get (fun w' => when (is_terminated w') on_terminated)))
-                                              (fun r w' => is_ok r -> st w' = Some (SExcepted e1)) w'
-                                | Err _ => is_ok (Err e : result unit) -> st w' = Some (SExcepted e1)
-                                end) w1').
-      { intros w1' T1'. unfold emit. do 8 wp_prim.
-        match goal with |- wp _ _ ?wx => assert (S2 : st wx = Some (SExcepted e1)) by reflexivity;
-                                          assert (T2 : transitioning wx = true) by exact T1'; generalize dependent wx end.
-        intros w2 S2 T2.
-        assert (M2 : is_terminated w2 = true) by (unfold is_terminated; rewrite S2; reflexivity).
-        assert (Hoe : Hat Tr1 SSr (when (hooks_alive w2) (on_entered rec_ctl w1)) w2).
-        { apply Hat_when; [exact SSr_refl | intro; apply on_entered_SK]. }
-        wp_prim. apply Hoe; [exact I|]. intros r3 w3 [T3 S3]. destruct r3; cbv beta iota; [|intros []].
-        repeat wp_prim.
-        assert (S3' : st w3 = Some (SExcepted e1)) by (rewrite (S3 T2 M2); exact S2).
-        assert (M3 : is_terminated w3 = true) by (unfold is_terminated; rewrite S3'; reflexivity).
-        rewrite M3. cbn [when]. apply on_terminated_SK; [exact I|]. intros r4 w4 [T4 S4] _. rewrite S4; [exact S3' | congruence | exact M3]. }
-      destruct (hooks_alive w1).
-      - eapply wp_use; [apply wp_conj; [apply (on_entering_NK (SExcepted e1) w1 (fun _ w' => transitioning w' = true)); [exact T1 | intros r w' N; apply N] |
-                                        apply on_entering_excepted_none]|].
-        intros r2 w2 [T2 Hn]. destruct r2 as [[s'|]|x]; cbv beta iota.
-        + exfalso. apply (Hn s'). reflexivity.
-        + apply Hrest. exact T2.
-        + intros [].
-      - wp_prim. apply Hrest. exact T1.
+      wp_prim. unfold enter_next. do 3 wp_prim. change (hooks_alive w0) with (hooks_alive w). rewrite Ha.
+      eapply wp_use; [apply (wp_conj _ (fun _ w' => NCr w0 w') (fun r w' => (forall s', r <> Ok (Some s')) /\ (is_ok r -> pfut w' = PfExn e1)));
+                      [apply (on_entering_NCK (SExcepted e1) w0 (fun _ w' => NCr w0 w')); [exact I | auto] | apply on_entering_excepted]|].
+      intros r1 w1 [[T1 _] [Hn Hp]]. destruct r1 as [[s'|]|x]; cbv beta iota; [exfalso; apply (Hn s'); reflexivity | | intros []].
+      assert (T1' : transitioning w1 = true) by (rewrite T1; reflexivity).
+      pose proof (Hp I) as P1. unfold emit. do 8 wp_prim.
+      match goal with |- wp _ _ ?wx => assert (S2 : st wx = Some (SExcepted e1)) by reflexivity;
+                                        assert (P2 : pfut wx = PfExn e1) by exact P1;
+                                        assert (T2 : transitioning wx = true) by exact T1'; generalize dependent wx end.
+      intros w2 S2 P2 T2.
+      assert (M2 : is_terminated w2 = true) by (unfold is_terminated; rewrite S2; reflexivity).
+      assert (Hoe : Hat Tr1 SSr (when (hooks_alive w2) (on_entered rec_ctl w0)) w2).
+      { apply Hat_when; [exact SSr_refl | intro; apply on_entered_SK]. }
+      wp_prim. apply Hoe; [exact I|]. intros r3 w3 [T3 S3]. destruct r3; cbv beta iota; [|intros []].
+      repeat wp_prim. destruct (S3 T2) as [P3 M3].
+      assert (S3' : st w3 = Some (SExcepted e1)) by (rewrite (M3 M2); exact S2).
+      assert (M3' : is_terminated w3 = true) by (unfold is_terminated; rewrite S3'; reflexivity).
+      rewrite M3'. cbn [when].
+      eapply wp_use; [apply (wp_conj _ (fun _ w' => SSr w3 w') (fun r w' => is_ok r -> closed w' = true));
+                      [apply (on_terminated_SK w3 (fun _ w' => SSr w3 w')); [exact I | auto] | apply on_terminated_ok_closed]|].
+      intros r4 w4 [[T4 S4] C4] Hr. destruct (S4 (eq_trans T3 T2)) as [P4 M4].
+      split; [rewrite (M4 M3'); exact S3' | split; [congruence | apply C4; exact Hr]].
+    Qed.
+
+    Lemma transition_body_cl ns w :
+      transitioning w = false ->
+      wp (transition_body rec_ctl ns) (fun r w' => (cl_same w w' \/ cl_set w') /\ (is_err r -> cl_same w w')) w.
+    Proof.
+      intros T. unfold transition_body. do 2 wp_prim. set (w0 := w <| transitioning := true |>).
+      apply (wp_conj _ (fun _ w' => cl_same w w' \/ cl_set w') (fun r w' => is_err r -> cl_same w w')).
+      - assert (H : Hat Tr1 NCr (bind get (fun w => bind (when (negb (transition_failing w)) (exit_current ns))
+                      (fun _ => bind (enter_next rec_ctl ns) (fun r => bind (match r with
+                         | Some s' => bind (exit_current s') (fun _ => bind (enter_next rec_ctl s') (fun _ => ret tt))
+                         | None => ret tt end) (fun _ => bind get (fun w' => when (is_terminated w') on_terminated)))))) w0).
+        { ncgo; first [apply exit_current_NCK | apply enter_next_NCK | apply on_terminated_NCK]. }
+        apply H; [exact I|]. intros r w' [_ X]. exact (X eq_refl).
+      - assert (T0 : transitioning w0 = true) by reflexivity.
+        assert (C0 : cl_same w w0) by (split; reflexivity).
+        do 2 wp_prim.
+        assert (Hex : Hat Tr1 NSr (when (negb (transition_failing w0)) (exit_current ns)) w0).
+        { apply Hat_when; [exact NSr_refl | intro; apply exit_current_NSK]. }
+        wp_prim. apply Hex; [exact I|]. intros r1 w1 [T1 S1]. pose proof (S1 T0) as C1. assert (T1' : transitioning w1 = true) by congruence.
+        destruct r1; cbv beta iota; [|intros _; exact C1].
+        wp_prim. apply enter_next_NSK; [exact I|]. intros r2 w2 [T2 S2]. pose proof (cl_same_trans _ _ _ C1 (S2 T1')) as C2.
+        assert (T2' : transitioning w2 = true) by congruence.
+        destruct r2 as [ro|x]; cbv beta iota; [|intros _; exact C2].
+        assert (Htail : forall w3, transitioning w3 = true -> cl_same w w3 ->
+                  wp (bind get (fun w' => when (is_terminated w') on_terminated)) (fun r w' => is_err r -> cl_same w w') w3).
+        { intros w3 T3 C3. do 2 wp_prim. destruct (is_terminated w3); cbn [when]; [|wp_prim; intros []].
+          eapply wp_use; [apply on_terminated_err; exact T3|]. intros r w4 H He. eapply cl_same_trans; [exact C3 | exact (H He)]. }
+        wp_prim. destruct ro as [s'|].
+        + wp_prim. apply exit_current_NSK; [exact I|]. intros r3 w3 [T3 S3]. pose proof (cl_same_trans _ _ _ C2 (S3 T2')) as C3.
+          assert (T3' : transitioning w3 = true) by congruence.
+          destruct r3; cbv beta iota; [|intros _; exact C3].
+          wp_prim. apply enter_next_NSK; [exact I|]. intros r4 w4 [T4 S4]. pose proof (cl_same_trans _ _ _ C3 (S4 T3')) as C4.
+          destruct r4; cbv beta iota; [|intros _; exact C4]. wp_prim. apply Htail; [congruence | exact C4].
+        + wp_prim. apply Htail; assumption.
     Qed.
 
     Hypothesis HrecX : forall c, XK (rec_ctl c).
 
-    (* a transition with a legal target during which the fault fires ends EXCEPTED e *)
+    (* a transition with a legal target during which the fault fires ends EXCEPTED e, future raising e, closed *)
     Lemma transition_to_exc ns w :
       GA w ->
       wp (transition_to rec_ctl (Some ns))
-         (fun r w' => to_ok w ns -> flt w -> ~ k < cnt w -> k < cnt w' -> st w' = Some (SExcepted e)) w.
+         (fun r w' => (AL w -> AL w') /\
+                      (to_ok w ns -> flt w -> AL w -> ~ k < cnt w -> k < cnt w' ->
+                       st w' = Some (SExcepted e) /\ pfut w' = PfExn e /\ closed w' = true)) w.
     Proof.
       intros G. unfold transition_to. do 2 wp_prim. destruct (transitioning w) eqn:Htr.
-      { wp_prim. intros (X & _). congruence. }
-      destruct G as [G0 G4]. pose proof (G4 Htr) as Hfl. do 2 wp_prim.
-      (* the first body: three views of it *)
+      { wp_prim. split; [auto|]. intros (X & _). congruence. }
+      pose proof G as [G0 G4]. pose proof (G4 Htr) as Hfl. do 2 wp_prim.
+      (* the first body: four views of it *)
       eapply wp_use.
-      { apply (wp_conj _ (fun r w1 => RT (Some (label_of ns)) (w <| transitioning := true |>) w1 /\ (body_ok w ns -> is_err r -> fired w w1))
-                         (fun r w1 => NPr r w w1)).
-        - apply transition_body_spec; [exact HrecX | exact G0 | exact Htr | congruence|]. intros r w1 R F _. split; assumption.
-        - apply transition_body_N; [exact Htr | auto]. }
-      intros r1 w1 [[R1 F1] N1]. destruct R1 as (G1 & C1 & Q1 & _ & _ & _ & X1 & Fl1 & _). cbn in C1, X1, Fl1.
+      { apply (wp_conj _ (fun r w1 => (RT (Some (label_of ns)) (w <| transitioning := true |>) w1 /\ (body_ok w ns -> is_err r -> fired w w1)) /\ NPr r w w1)
+                         (fun r w1 => (cl_same w w1 \/ cl_set w1) /\ (is_err r -> cl_same w w1))).
+        - apply (wp_conj _ (fun r w1 => RT (Some (label_of ns)) (w <| transitioning := true |>) w1 /\ (body_ok w ns -> is_err r -> fired w w1))
+                           (fun r w1 => NPr r w w1)).
+          + apply transition_body_spec; [exact HrecX | exact G0 | exact Htr | congruence|]. intros r w1 R F _. split; assumption.
+          + apply transition_body_N; [exact Htr | auto].
+        - apply transition_body_cl. exact Htr. }
+      intros r1 w1 [[[R1 F1] N1] [D1 E1c]]. destruct R1 as (G1 & C1 & Q1 & _ & _ & _ & X1 & Fl1 & _). cbn in C1, X1, Fl1.
       destruct N1 as (_ & _ & O1 & E1).
       destruct r1 as [u|e1]; cbv beta iota.
-      - wp_prim. intros Hto F Hn Hs. exfalso. apply Hn. apply (O1 I F). exact Hs.
+      - wp_prim. split; [intro A; apply (AL_step w); [exact A | exact D1]|].
+        intros Hto F _ Hn Hs. exfalso. apply Hn. apply (O1 I F). exact Hs.
       - do 4 wp_prim. cbn [transition_failing set]. rewrite Fl1, Hfl. do 2 wp_prim.
         destruct (label_eqb (label_of ns) LCreated) eqn:Hcr.
-        { do 2 wp_prim. intros (_ & _ & X). exfalso. apply X. destruct (label_of ns); try discriminate. reflexivity. }
+        { do 2 wp_prim. split; [intro A; apply (AL_step w); [exact A | exact D1]|].
+          intros (_ & _ & X). exfalso. apply X. destruct (label_of ns); try discriminate. reflexivity. }
         set (w2 := w1 <| transitioning := false |> <| transition_failing := true |>).
         unfold transition_to_failing. do 2 wp_prim. change (transitioning w2) with false. cbv iota. do 2 wp_prim.
+        pose proof (E1c I) as Cs1.
         eapply wp_use.
-        { apply (wp_conj _ (fun r w3 => is_err r -> fired w2 w3) (fun r w3 => is_ok r -> st w3 = Some (SExcepted e1))).
-          - apply transition_body_spec; [exact HrecX | apply GA0_flags; apply G1 | reflexivity | reflexivity|].
-            intros r w3 _ F _ He. apply F; [intro X; discriminate X | exact He].
-          - apply body_excepted_st. reflexivity. }
-        intros r3 w3 [F3 S3].
-        assert (Hfin : to_ok w ns -> flt w -> ~ k < cnt w -> is_ok r3 /\ st w3 = Some (SExcepted e)).
-        { intros (_ & Hl & _) F Hn.
+        { apply (wp_conj _ (fun r w3 => (is_err r -> fired w2 w3) /\ (cl_same w2 w3 \/ cl_set w3))
+                           (fun r w3 => hooks_alive w2 = true -> is_ok r -> st w3 = Some (SExcepted e1) /\ pfut w3 = PfExn e1 /\ closed w3 = true)).
+          - apply (wp_conj _ (fun r w3 => is_err r -> fired w2 w3) (fun r w3 => cl_same w2 w3 \/ cl_set w3)).
+            + apply transition_body_spec; [exact HrecX | apply GA0_flags; apply G1 | reflexivity | reflexivity|].
+              intros r w3 _ F _ He. apply F; [intro X; discriminate X | exact He].
+            + eapply wp_use; [apply transition_body_cl; reflexivity|]. intros r w3 [D _]. exact D.
+          - destruct (hooks_alive w2) eqn:Ha2.
+            + eapply wp_use; [apply body_excepted_full; [reflexivity | reflexivity | exact Ha2]|]. intros r w3 H _. exact H.
+            + apply wp_any. intros r s X. discriminate X. }
+        intros r3 w3 [[F3 D3] S3].
+        assert (HAL : AL w -> AL w3).
+        { intro A. apply (AL_step w2); [|exact D3]. apply (AL_step w); [exact A | left; exact Cs1]. }
+        assert (Hfin : to_ok w ns -> flt w -> AL w -> ~ k < cnt w ->
+                       is_ok r3 /\ st w3 = Some (SExcepted e) /\ pfut w3 = PfExn e /\ closed w3 = true).
+        { intros Hto F A Hn. pose proof Hto as (_ & Hl & _).
           assert (Hfd : fired w w1) by (apply F1; [intros _; exact Hl | exact I]).
           assert (F1' : flt w1) by (unfold flt in *; rewrite C1; exact F).
           assert (Hs1 : k < cnt w1) by (apply (spent_cnt w1 F1'); apply Hfd).
@@ -651,10 +859,15 @@ Section Fault.
           { destruct (E1 e1 eq_refl) as [X|X]; [apply X; exact F | exfalso; apply Hn; apply (X F); exact Hs1]. }
           assert (Hok : is_ok r3).
           { destruct r3; [exact I|]. exfalso. destruct (F3 I) as [Hns _]. apply Hns. unfold w2, spent. cbn. apply Hfd. }
-          split; [exact Hok|]. rewrite <- He1. apply S3. exact Hok. }
+          assert (Hal : hooks_alive w2 = true).
+          { destruct Cs1 as [Xc Yc]. change (hooks_alive w2) with (hooks_alive w1). rewrite Yc.
+            destruct (hooks_alive w) eqn:Ea; [reflexivity|]. exfalso.
+            pose proof (A Ea) as Hc. destruct G0 as (_ & G2 & _). pose proof (G2 Hc) as Ht.
+            destruct Hl as (l & Hl1 & Hl2). rewrite is_terminated_lbl, Hl1 in Ht. cbn in Ht. rewrite (allowed_not_terminal _ _ Hl2) in Ht. discriminate. }
+          split; [exact Hok|]. rewrite <- He1. apply S3; assumption. }
         destruct r3 as [u3|e3]; cbv beta iota.
-        + do 2 wp_prim. intros Hto F Hn _. destruct (Hfin Hto F Hn) as [_ S]. exact S.
-        + do 4 wp_prim. intros Hto F Hn _. destruct (Hfin Hto F Hn) as [[] _].
+        + do 2 wp_prim. split; [exact HAL|]. intros Hto F A Hn _. destruct (Hfin Hto F A Hn) as [_ S]. exact S.
+        + do 4 wp_prim. split; [exact HAL|]. intros Hto F A Hn _. destruct (Hfin Hto F A Hn) as [[] _].
     Qed.
   End TransitionN.
 
@@ -701,11 +914,15 @@ Section Fault.
     end.
 
   (* what keeps [handled]: the counter of h and a terminal state are left alone *)
-  Definition keepH (w w' : world) : Prop := cnt w' = cnt w /\ (is_terminated w = true -> st w' = st w).
+  Definition keepH (w w' : world) : Prop :=
+    cnt w' = cnt w /\ closed w' = closed w /\ hooks_alive w' = hooks_alive w
+    /\ (is_terminated w = true -> st w' = st w) /\ (is_terminated w = true -> pfut w' = pfut w).
   Lemma keepH_handled w w' : cfg w' = cfg w -> keepH w w' -> handled w -> handled w'.
   Proof.
-    intros C [N S] H F Hk. unfold flt in F. rewrite C in F. rewrite N in Hk. pose proof (H F Hk) as Hs.
-    rewrite S; [exact Hs|]. unfold is_terminated. rewrite Hs. reflexivity.
+    intros C (N & L & Al & S & P) [HA H]. split; [apply (AL_step w); [exact HA | left; split; assumption]|].
+    intros F Hk. unfold flt in F. rewrite C in F. rewrite N in Hk. destruct (H F Hk) as (Hs & Hp & Hc).
+    assert (Ht : is_terminated w = true) by (unfold is_terminated; rewrite Hs; reflexivity).
+    rewrite (S Ht), (P Ht), L. auto.
   Qed.
 
   (* a first-pass control-level operation that is also such a frame *)
@@ -717,11 +934,11 @@ Section Fault.
   Qed.
 
   Lemma FrN_keepH {A} (m : LM A) : FrN m -> forall w, wp m (fun _ w' => keepH w w') w.
-  Proof. intros H w. apply H. intros r w' (_ & _ & O & S). split; [unfold cnt; rewrite O; reflexivity | exact S]. Qed.
+  Proof. intros H w. apply H. intros r w' (_ & _ & O & L & Al & P & S). split; [unfold cnt; rewrite O; reflexivity | repeat split; auto]. Qed.
 
   Lemma hook_other_keepH name : String.eqb h name = false -> forall w, wp (hook name) (fun _ w' => keepH w w') w.
   Proof.
-    intros Hne w. unfold hook, emit. repeat (wp_prim || wp_case); (split; [unfold cnt; cbn; apply nat_assoc_bump_other; exact Hne | reflexivity]).
+    intros Hne w. unfold hook, emit. repeat (wp_prim || wp_case); (split; [unfold cnt; cbn; apply nat_assoc_bump_other; exact Hne | repeat split; reflexivity]).
   Qed.
 
   Lemma cancel_disarm_FrN a : FrN (bind (cancel_act a) (fun _ => bind (modify (fun w => w <| pausing := None |>)) (fun _ => set_interrupt_action None))).
@@ -739,14 +956,14 @@ Section Fault.
       match goal with |- wp _ _ ?w1 => assert (R1 : HRel w w1) end.
       { split.
         - eapply (bump_RT None); try reflexivity; [exact G|]. apply errs_ok_snoc; [apply G | reflexivity].
-        - apply (keepH_handled w); [reflexivity | | exact H]. split; [|reflexivity].
+        - apply (keepH_handled w); [reflexivity | | exact H]. split; [|repeat split; reflexivity].
           unfold cnt. cbn. apply nat_assoc_bump_other. apply sm_not_listener. }
       apply (wp_mapM_inv _ (fun s => HRel w s)); [exact R1 | | intros s' Hs; apply HQ; exact Hs].
       intros ls s1 _ R. destruct (String.eqb (ls_event ls) name && Nat.eqb (ls_occ ls) (nat_assoc ("L:" ++ name) (occ w))).
       - do 2 wp_prim. apply HrecH; [eapply HRel_pre; [split; [exact G | exact H] | exact R]|]. intros r s2 R2. wp_prim. split; [reflexivity|].
         eapply HRel_trans; [exact R|]. eapply HRel_trans; [exact R2|]. destruct R2 as [R2 H2]. split.
         + apply eeq_RT; [apply R2|]. repeat split; try reflexivity. intro X. apply errs_ok_snoc; [exact X | reflexivity].
-        + apply (keepH_handled s2); [reflexivity | split; reflexivity | exact H2].
+        + apply (keepH_handled s2); [reflexivity | repeat split; reflexivity | exact H2].
       - wp_prim. split; [reflexivity | exact R].
     Qed.
 
@@ -788,13 +1005,13 @@ Section Fault.
       eapply wp_use; [apply wp_conj; [apply wp_conj; [apply (transition_terminal rec_ctl HrecX ns w (fun _ w' => RK w w')); [exact G | exact Ht | auto] |
                                       apply (transition_to_exc rec_ctl HrecE HrecX ns w G)] |
                                       apply (transition_to_EK rec_ctl HrecE (Some ns) w (fun _ w' => EXr w w')); [exact I | auto]]|].
-      intros r w' [[R X] (_ & _ & E3)]. apply HQ. split; [exact R|]. intros F' Hk'.
+      intros r w' [[R [XA X]] (_ & _ & E3)]. apply HQ. split; [exact R|]. destruct H as [HA H]. split; [apply XA; exact HA|]. intros F' Hk'.
       assert (F : flt w) by (unfold flt in *; destruct R as (_ & C & _); rewrite <- C; exact F').
       assert (Hn : ~ k < cnt w).
-      { intro Hk. pose proof (H F Hk) as Hs. unfold is_terminated in Hl. rewrite Hs in Hl. discriminate. }
+      { intro Hk. destruct (H F Hk) as [Hs _]. unfold is_terminated in Hl. rewrite Hs in Hl. discriminate. }
       destruct (transitioning w) eqn:Etr.
       - exfalso. apply Hn. destruct (E3 eq_refl) as [N _]. rewrite <- N. exact Hk'.
-      - apply X; [| exact F | exact Hn | exact Hk'].
+      - apply X; [| exact F | exact HA | exact Hn | exact Hk'].
         split; [exact Etr|]. split; [apply (live_to_terminal _ _ G Hl Hlab) | destruct Hlab as [-> | ->]; discriminate].
     Qed.
 
@@ -986,14 +1203,15 @@ Section Fault.
   Proof.
     intros [P H] Hto HQ.
     eapply wp_use; [apply (wp_conj _ (fun r w' => RT (Some (label_of ns)) w w' /\ is_ok r)
-                                     (fun r w' => to_ok w ns -> flt w -> ~ k < cnt w -> k < cnt w' -> st w' = Some (SExcepted e)))|].
+                                     (fun r w' => (AL w -> AL w') /\ (to_ok w ns -> flt w -> AL w -> ~ k < cnt w -> k < cnt w' ->
+                                                   st w' = Some (SExcepted e) /\ pfut w' = PfExn e /\ closed w' = true)))|].
     - apply transition_spec; [apply P|]. intros r w' R Hok. split; [exact R | apply Hok; exact Hto].
     - unfold transition. apply transition_to_exc; [apply do_ctl_EK | intro; apply do_ctl_XK | apply P].
-    - intros r w' [[R Hr] X]. destruct r as [[]|]; [|destruct Hr]. apply HQ; [|apply R|apply R].
-      split; [eapply OPre_of_RT; eauto|]. intros F' Hk'.
+    - intros r w' [[R Hr] [XA X]]. destruct r as [[]|]; [|destruct Hr]. apply HQ; [|apply R|apply R]. destruct H as [HA H].
+      split; [eapply OPre_of_RT; eauto|]. split; [apply XA; exact HA|]. intros F' Hk'.
       assert (F : flt w) by (unfold flt in *; destruct R as (_ & C & _); rewrite <- C; exact F').
-      apply X; [exact Hto | exact F | | exact Hk'].
-      intro Hk. pose proof (H F Hk) as Hs. pose proof (to_ok_live _ _ Hto) as Hl. unfold is_terminated in Hl. rewrite Hs in Hl. discriminate.
+      apply X; [exact Hto | exact F | exact HA | | exact Hk'].
+      intro Hk. destruct (H F Hk) as [Hs _]. pose proof (to_ok_live _ _ Hto) as Hl. unfold is_terminated in Hl. rewrite Hs in Hl. discriminate.
   Qed.
 
   (* do_pause with a next state = the transition, then do_pause without one *)
@@ -1079,17 +1297,6 @@ Section Fault.
       intros r w2 G2 T2 T02 H2 Hr. apply HQ; [exact G2 | exact T2 | congruence | exact H2 | exact Hr].
   Qed.
 
-  Lemma handled_leq w w' : leq w w' -> (is_terminated w = true -> st w' = st w) -> handled w -> handled w'.
-  Proof.
-    intros (C & _ & _ & _ & _ & _ & _ & _ & O & _) S H. apply (keepH_handled w); [exact C | | exact H].
-    split; [unfold cnt; rewrite O; reflexivity | exact S].
-  Qed.
-
-  Lemma sia_st new w : wp (set_interrupt_action new) (fun _ w' => st w' = st w) w.
-  Proof. unfold set_interrupt_action, cancel_act, set_act_fut. repeat (wp_prim || wp_case); reflexivity. Qed.
-  Lemma sia_from_st kd c w : wp (set_interrupt_action_from kd c) (fun _ w' => st w' = st w) w.
-  Proof. unfold set_interrupt_action_from, set_interrupt_action, cancel_act, set_act_fut. repeat (wp_prim || wp_case); reflexivity. Qed.
-
   Lemma finish_step_specH x w (Q : result unit -> world -> Prop) :
     OPreH w -> (forall next, x = XoNext next -> legal w next) ->
     (forall r w', OPreH w' -> okf r -> Q r w') -> wp (finish_step x) Q w.
@@ -1101,12 +1308,12 @@ Section Fault.
     { intros r ran w2 G2 T2 N2 H2 Hr. do 2 wp_prim.
       set (w3 := w2 <| stepping := false |>).
       assert (G3 : GAr ran w3) by exact G2.
-      eapply wp_use; [apply wp_conj; [apply wp_conj; [apply (sia_FrL None w3 (fun r w' => leq w3 w')); auto | apply (sia_fun None w3 (fun r w' => r = Ok tt /\ intr w' = None)); auto] | apply sia_st]|].
+      eapply wp_use; [apply wp_conj; [apply wp_conj; [apply (sia_FrL None w3 (fun r w' => leq w3 w')); auto | apply (sia_fun None w3 (fun r w' => r = Ok tt /\ intr w' = None)); auto] | apply (FrN_keepH _ (sia_FrN None))]|].
       intros r4 w4 [[L4 [-> I4]] S4]. apply HQ; [|exact Hr].
       split.
       - split; [eapply GAr_disarmed; eauto|]. destruct L4 as (_ & _ & _ & _ & _ & X & _ & T04 & _). split; [rewrite X; exact T2|].
         unfold nf in *. rewrite T04. exact N2.
-      - apply (handled_leq w3); [exact L4 | intros _; exact S4 | exact H2]. }
+      - apply (keepH_handled w3); [apply L4 | exact S4 | exact H2]. }
     assert (Hmid : forall next w1, OPreH w1 -> legal w1 next ->
               wp (bind get (fun w => if is_terminated w then ret tt
                                      else match intr w with
@@ -1153,9 +1360,6 @@ Section Fault.
 
   (* ---------------------------------------------------------------- the stepping loop, one callback, the environment *)
   Definition LPostH (r : result unit) (w' : world) : Prop := OPreH w' /\ okf r /\ (is_ok r -> T3 w').
-
-  Lemma handled_same w w' : cfg w' = cfg w -> occ w' = occ w -> st w' = st w -> handled w -> handled w'.
-  Proof. intros C O S H. apply (keepH_handled w); [exact C | split; [unfold cnt; rewrite O; reflexivity | intros _; exact S] | exact H]. Qed.
 
   Lemma step_body_specH (rest : LM unit) w (Q : result unit -> world -> Prop) :
     OPreH w ->
@@ -1248,7 +1452,7 @@ Section Fault.
   Lemma emit_TopH ev w (Q : result unit -> world -> Prop) :
     TopH w -> ev_ok ev = true -> (forall w', TopH w' -> Q (Ok tt) w') -> wp (emit ev) Q w.
   Proof.
-    intros H He HQ. unfold emit. wp_prim. apply HQ. eapply TopH_frame; [exact H | | split; [reflexivity | intros _; reflexivity]].
+    intros H He HQ. unfold emit. wp_prim. apply HQ. eapply TopH_frame; [exact H | | repeat split; reflexivity].
     repeat split; try reflexivity. intro X. apply errs_ok_snoc; assumption.
   Qed.
 
@@ -1304,7 +1508,7 @@ Section Fault.
     TopH w -> (forall w', TopH w' -> Q (Ok tt) w') -> wp tick Q w.
   Proof.
     intros H HQ. unfold tick. do 2 wp_prim. destruct (ready w) as [|r rest]; [wp_prim; apply HQ; exact H|].
-    do 2 wp_prim. apply run_entry_specH; [|exact HQ]. eapply TopH_frame; [exact H | repeat split; auto | split; [reflexivity | intros _; reflexivity]].
+    do 2 wp_prim. apply run_entry_specH; [|exact HQ]. eapply TopH_frame; [exact H | repeat split; auto | repeat split; reflexivity].
   Qed.
 
   Lemma drain_specH n : forall w (Q : result unit -> world -> Prop),
@@ -1323,13 +1527,13 @@ Section Fault.
     - wp_prim. apply ctl_observed_TopH; [exact H|]. intros x w1 H1. cbv beta iota.
       apply emit_TopH; [exact H1 | reflexivity | exact HQ].
     - contradiction.
-    - unfold schedule. wp_prim. apply HQ. eapply TopH_frame; [exact H | repeat split; auto | split; [reflexivity | intros _; reflexivity]].
+    - unfold schedule. wp_prim. apply HQ. eapply TopH_frame; [exact H | repeat split; auto | repeat split; reflexivity].
     - do 2 wp_prim. destruct (find (fun kw => Nat.eqb (fst kw) k0) (exts w)); [wp_prim; apply HQ; exact H|].
       do 2 wp_prim.
-      match goal with |- wp _ _ ?wx => assert (H1 : TopH wx) by (eapply TopH_frame; [exact H | repeat split; auto | split; [reflexivity | intros _; reflexivity]]) end.
+      match goal with |- wp _ _ ?wx => assert (H1 : TopH wx) by (eapply TopH_frame; [exact H | repeat split; auto | repeat split; reflexivity]) end.
       destruct (t0 w); try (wp_prim; apply HQ; exact H1). destruct await_ext; [|wp_prim; apply HQ; exact H1].
       apply wp_when_i; intro; [|apply HQ; exact H1]. unfold schedule. wp_prim. apply HQ.
-      eapply TopH_frame; [exact H1 | repeat split; auto | split; [reflexivity | intros _; reflexivity]].
+      eapply TopH_frame; [exact H1 | repeat split; auto | repeat split; reflexivity].
     - apply drain_specH; assumption.
   Qed.
 
@@ -1347,28 +1551,30 @@ Section Fault.
 End Fault.
 
 (* ------------------------------------------------------------------ construction, every run *)
-Lemma constructed_shape c u w : construct_process c = (Ok u, w) -> cfg w = c /\ occ w = [("on_create", 1)].
+Lemma constructed_shape c u w :
+  construct_process c = (Ok u, w) -> cfg w = c /\ occ w = [("on_create", 1)] /\ hooks_alive w = true.
 Proof.
   intro Hc. destruct c as [prog cbs ls fault osp]. unfold construct_process in Hc.
   unfold transition in Hc. revert Hc. generalize (do_ctl reent_fuel). intros rec Hc.
   destruct fault as [[[h k] e]|].
   - vm_compute in Hc.
     match type of Hc with context [match ?b with true => _ | false => _ end] => destruct b end; [discriminate Hc|].
-    injection Hc as _ <-. split; reflexivity.
-  - vm_compute in Hc. injection Hc as _ <-. split; reflexivity.
+    injection Hc as _ <-. repeat split; reflexivity.
+  - vm_compute in Hc. injection Hc as _ <-. repeat split; reflexivity.
 Qed.
 
-(* C03, every run: once the injected fault of a transition hook has fired, the process is EXCEPTED with exactly that exception *)
+(* C03, every run: once the injected fault of a transition hook has fired, the process is EXCEPTED with exactly that exception,
+   its future raises it and it is closed *)
 Theorem fault_ends_excepted c es w h k e :
   run c es = Some w -> ~ In ECancelFuture es ->
   cf_fault c = Some (h, k, e) -> smhook h = true -> k < nat_assoc h (occ w) ->
-  st w = Some (SExcepted e).
+  st w = Some (SExcepted e) /\ pfut w = PfExn e /\ closed w = true.
 Proof.
   intros Hr Hn Hf Hsm Hk. unfold run in Hr. destruct (construct_process c) as [[u|x] w0] eqn:Hc; [|discriminate].
-  injection Hr as <-. destruct (constructed_shape _ _ _ Hc) as [C0 O0].
+  injection Hr as <-. destruct (constructed_shape _ _ _ Hc) as (C0 & O0 & A0).
   assert (T0 : TopH h k e w0).
-  { split; [eapply constructed_Top; eauto|]. intros _ X. exfalso. unfold cnt in X. rewrite O0 in X. cbn in X.
+  { split; [eapply constructed_Top; eauto|]. split; [intro X; congruence|]. intros _ X. exfalso. unfold cnt in X. rewrite O0 in X. cbn in X.
     rewrite (sm_not_other h Hsm "on_create") in X; [lia | cbn; tauto]. }
-  destruct (run_from_TopH h k e Hsm es w0 T0 Hn) as [_ H]. apply H; [|exact Hk].
+  destruct (run_from_TopH h k e Hsm es w0 T0 Hn) as [_ [_ H]]. apply H; [|exact Hk].
   unfold flt. rewrite run_from_cfg, C0. exact Hf.
 Qed.
